@@ -7,7 +7,7 @@ from gen import columns as G
 
 ID = "C08"
 LEVEL = "proof"
-LEAN_IMPORTS = ["WM.Props.C08"]
+LEAN_IMPORTS = ["WM.Props.C08", "WM.Props.C08Field", "WM.Props.C08Iter"]
 THEOREMS = [
     "WM.C08.varbytes_roundtrip", "WM.C08.fixedbytes_roundtrip", "WM.C08.numeric_roundtrip",
     "WM.C08.refbytes_roundtrip", "WM.C08.bit_roundtrip", "WM.C08.bit_roundtrip_cell",
@@ -15,6 +15,10 @@ THEOREMS = [
     "WM.C08.varbyteslist_roundtrip", "WM.C08.fixedbyteslist_roundtrip",
     "WM.C08.multi", "WM.C08.multi_value", "WM.C08.merge", "WM.C08.merge_model", "WM.C08.merge_varbytes",
     "WM.C08.fixedwidth_roundtrip", "WM.C08.fixedwidth_roundtrip_exact",
+    "WM.C08.utf8_roundtrip", "WM.C08.text_field_roundtrip", "WM.C08.int_field_roundtrip",
+    "WM.C08.float_field_roundtrip", "WM.C08.datetime_field_roundtrip",
+    "WM.C08.varbytes_iter", "WM.C08.multi_iter", "WM.C08.fixed_iter", "WM.C08.numeric_iter",
+    "WM.C08.int_sort_key_order",
 ]
 # theorem -> what is missing for the full statement of the property
 PARTIAL = {
@@ -28,17 +32,33 @@ PARTIAL = {
         "integer type codes only; float type codes are covered by fixedwidth_roundtrip(_exact) over packed bytes "
         "with struct packing as an identity parameter",
     "WM.C08.stored_fields":
-        "values are opaque (pickle is an identity parameter); the conversion of field values to and from column "
-        "values (to_column_value / from_column_value: unicode -> utf8, NUMERIC/DATETIME -> sortable integers, "
-        "BOOLEAN -> bit, Decimal scaling) has no Lean model in this family: it is checked by the public-API stream "
-        "against Layer S on opaque values, and the numeric sortable encoding belongs to C13",
+        "stored values are opaque (pickle is an identity parameter): a stored value is the object that was passed, "
+        "no field conversion applies to it; the conversions of *column* values are the *_field_roundtrip theorems",
+    "WM.C08.int_field_roundtrip":
+        "NUMERIC(int) without decimal_places and with a scalar argument; Decimal fields (prepare_number scaling, C13 "
+        "`decimal`) and list/tuple arguments (to_column_value takes x[0]) are covered by the public-API stream only",
+    "WM.C08.text_field_roundtrip":
+        "the default column (VarBytesColumn) and unicode arguments; a bytes argument is written as is and comes back "
+        "decoded (a str, not the bytes object); RefBytes/FixedBytes/Pickle columns passed as sortable= compose with "
+        "their own round-trip theorems in the same way but are not restated; BOOLEAN/IDLIST/NGRAM made sortable "
+        "through set_sortable() use the same FieldType defaults and are not exercised",
+    "WM.C08.datetime_field_roundtrip":
+        "a document WITHOUT a date does not read as a default: the column default is 2^64-1 and from_column_value "
+        "raises OverflowError (stated in the theorem; recorded finding DATETIME.from_column_value:default-out-of-"
+        "datetime-range). Datetimes are (days, seconds, microseconds) since datetime.min; calendar arithmetic and "
+        "tzinfo stripping are CPython's; string arguments (parsed dates) are not modelled",
+    "WM.C08.float_field_roundtrip":
+        "on 64-bit patterns of doubles (struct packing is an identity parameter); the acceptance test prepare_number "
+        "is a hypothesis (`prepareFloat signed b = ok b`), discharged for concrete patterns in the example",
     "WM.C08.merge_model":
         "models the column copy of write_per_doc for one column of one old segment, given any reader that shows "
         "`cell` (composed with the VarBytesColumn codec in merge_varbytes); stored fields, lengths and vectors copied "
         "by the same loop, and merging with a docmap over several segments, are covered by the segs / api streams only",
     "WM.C08.multi_value":
-        "__getitem__ only; MultiColumnReader.__iter__, ColumnReader.load() and sort_key/reverse readers are not "
-        "modelled (iter == getitem is checked differentially on the real readers)",
+        "__getitem__; iteration is multi_iter / varbytes_iter / fixed_iter / numeric_iter and numeric sort keys "
+        "int_sort_key_order; ColumnReader.load() (list(self) or array(typecode, self)), BitColumn.__iter__/sort_key and "
+        "RefBytes/Pickle/Compressed iteration are not modelled (iter == getitem == load is checked differentially on "
+        "the real readers of every type)",
     "WM.C08.bit_roundtrip":
         "one read function for both the in-memory BitSet and the OnDiskBitSet paths (the real code picks by file "
         "size); both real paths are driven by the columns stream",
@@ -47,21 +67,27 @@ RULE = ("column streams: strictly increasing (docnum, value) adds with gaps and 
         "column type x storage (RAM, file mmap on/off, compound) x non-zero base position; sizes biased to the "
         "type-code thresholds (value length / total size 255|256, 65535|65536; 255|256|257 distinct values; "
         "65535|65536 in thorough), offsets cutoff {0,1,3,2^15}; non-trivial = the case has a row without a "
-        "value (default must be synthesised) or crosses a threshold; distinct = distinct (column config, adds)")
+        "value (default must be synthesised) or crosses a threshold; distinct = distinct (column config, adds); "
+        "field stream: NUMERIC int (bits 8..64, signed/unsigned, default None/explicit, values at the range limits), "
+        "NUMERIC float (bit patterns incl. -0.0, inf, NaN, subnormals), DATETIME (min/max), TEXT/ID/KEYWORD (code points "
+        "at every UTF-8 length boundary, non-BMP), utf8decode on mutated byte strings; malformed sub-stream (invalid "
+        "bits/default, out-of-range values, lone surrogates): non-trivial = has a row without a value / a non-empty string")
 ASSUMPTIONS = [
     "pickle, zlib and struct packing of floats round-trip (identity parameters of the model)",
     "column regions start at base position 0 in the model; the real readers are also run at non-zero base positions",
     "no Lean model of CompressedBlockColumn, ClampedNumericColumn (both marked experimental in columns.py and "
     "defective, see the recorded findings) and StructColumn beyond fixedwidth_roundtrip(_exact): harness-only",
-    "field-level value conversion (to_column_value / from_column_value) is outside the Lean model; values are opaque "
-    "atoms in Layer S and the public-API stream compares them after the real conversion both ways",
-    "reader __iter__ and load() are not modelled; the columns stream compares list(reader) and reader.load() with "
-    "reader[d] on every case",
+    "field-level value conversion: UTF-8 (strict codec semantics), NUMERIC int/float, DATETIME are modelled "
+    "(WM/Model/ColumnsField.lean over WM.Numeric) and diffed against fields.py on every run; Decimal scaling, "
+    "list-valued arguments and date strings are compared on opaque values by the public-API stream only",
+    "reader load() and the iteration of Bit/Ref/Pickle/Compressed readers are not modelled; the columns stream compares "
+    "list(reader) and reader.load() with reader[d] on every case",
 ]
 TRUSTED = []
 MANIFEST = {
-    "level_text": "Lean theorems over executable byte-level mirrors of the column writers/readers of columns.py, "
-                  "tied to the code by differential runs (file bytes and rows) on every check.",
+    "level_text": "Lean theorems over executable byte-level mirrors of the column writers/readers of columns.py and of "
+                  "the field <-> column value conversions of fields.py, tied to the code by differential runs (file "
+                  "bytes and rows) on every check.",
     "level_note": "pickle/zlib/float packing are identity parameters.",
     "technique": "machine-checked proof in Lean 4 over an executable model + differential correspondence check",
 }
@@ -137,15 +163,15 @@ def _real_column(arg):
     try:
         res = G.run_column(_column_of(case), case["adds"], case["doccount"], storage, prefix)
     except Exception as e:  # noqa
-        return "harness-exc %s: %s" % (type(e).__name__, e), None
+        return "harness-exc %s: %s" % (type(e).__name__, e), None, None
     if res[0] == "err":
-        return "err " + res[1], None
+        return "err " + res[1], None, None
     _, raw, rows, extra = res
     t = case["type"]
     if t == "bit" and raw and raw[-1:] == b"\x01":
         raw = zlib.decompress(raw[:-1]) + b"\x01"      # zlib is an identity parameter of the model
     if isinstance(rows, str):
-        return "ok %s %s" % (G.hexs(raw), rows), None
+        return "ok %s %s" % (G.hexs(raw), rows), None, None
     if t == "num":
         shown = [("!" + G.exc_name(v)) if isinstance(v, Exception) else "%d" % v for v in rows]
     elif t == "bit":
@@ -165,7 +191,45 @@ def _real_column(arg):
             (a == b) or (isinstance(b, Exception)) for a, b in zip(ld, rows))
         if not ld_ok:
             problem = "load(): " + repr(ld)[:200]
-    return head + G.lst(shown), problem
+    return head + G.lst(shown), problem, _iter_text(t, extra)
+
+
+def _iter_text(t, extra):
+    """list(reader) — and for numeric columns sort_key plain / after set_reverse() — in the notation of
+    `c08 variter` / `c08 numiter`."""
+    def show(vs, f):
+        if isinstance(vs, Exception):
+            return "!" + G.exc_name(vs)
+        return G.lst([f(v) for v in vs])
+    if t == "var":
+        return show(extra["iter"], G.hexs)
+    if t == "num":
+        return "%s %s %s" % (show(extra["iter"], lambda v: "%d" % v), show(extra["sort_keys"], lambda v: "%d" % v),
+                             show(extra["rev_keys"], lambda v: "%d" % v))
+    return None
+
+
+def _ranks(xs):
+    order = {v: k for k, v in enumerate(sorted(set(xs)))}
+    return [order[x] for x in xs]
+
+
+def _iter_canon(t, text):
+    """Iteration rows verbatim; sort keys only through the order they induce."""
+    if t != "num" or "!" in text:
+        return text
+    from vcheck import parse_sexp
+    it, ks, rs = parse_sexp(text)
+    return (tuple(it), tuple(_ranks([int(x) for x in ks])), tuple(_ranks([int(x) for x in rs])))
+
+
+def _iter_line(case):
+    t, n = case["type"], case["doccount"]
+    if t == "var":
+        return "c08 variter %d %d %d %s" % (int(case["allow"]), case["cutoff"], n, G.adds_sexp(case["adds"], G.hexs))
+    if t == "num":
+        return "c08 numiter %s %d %d %s" % (case["code"], case["default"], n, G.adds_sexp(case["adds"], str))
+    return "ping"
 
 
 def _pack(obj):
@@ -226,11 +290,24 @@ def stream_columns(ctx, n, args=None):
     for c in cases:
         lines.append(_model_line(c))
         lines.append(_spec_line(c))
+        lines.append(_iter_line(c))
     model = ctx.driver.ask(lines)
     real = ctx.pmap(_real_column, args, chunksize=8)
     for k, (c, storage, prefix) in enumerate(args):
-        m, spec = model[2 * k], model[2 * k + 1]
-        r, iter_problem = real[k]
+        m, spec, mit = model[3 * k], model[3 * k + 1], model[3 * k + 2]
+        r, iter_problem, rit = real[k]
+        if rit is not None and m == r and m.startswith("ok") and "open-err" not in m:
+            ctx.stat("columns:iter-model=" + c["type"])
+            if _iter_canon(c["type"], mit) != _iter_canon(c["type"], rit):
+                ctx.divergence("columns.iter." + c["type"], _case_json(c, storage, prefix), mit[:1200], rit[:1200])
+            if c["type"] == "num" and "!" not in rit:
+                from vcheck import parse_sexp
+                it, ks, rs = [[int(x) for x in part] for part in parse_sexp(rit)]
+                # sort keys are compared through the order they induce (any order-equivalent key is as good)
+                if _ranks(ks) != _ranks(it) or _ranks(rs) != _ranks([-x for x in it]):
+                    ctx.violation("NumericColumn.Reader.sort_key:order-differs-from-value-order", _case_json(c, storage, prefix),
+                                  "sort_key orders documents like reader[d], and the other way round after set_reverse()",
+                                  rit[:300], "sort keys of a numeric column")
         ctx.case((c["type"], repr(sorted(_case_json(c).items()))), nontrivial=_nontrivial(c))
         ctx.stat("columns:type=" + c["type"])
         ctx.stat("columns:storage=" + storage)
@@ -461,6 +538,9 @@ def stream_api(ctx, n, cases=None):
         ctx.stat("api:storage=" + c["storage"])
         ctx.stat("api:final=" + c["final"])
         ctx.stat("api:segments=%s" % stats.get("segments", "?"))
+        for lst_ in c.get("rejects", {}).values():
+            for kind, _ in lst_:
+                ctx.stat("api:rejected-document=" + kind)
         for sig, exp, obs, desc in viol:
             ctx.violation(sig, dict(G.api_case_json(c), _stream="api", _pickle=_pack(c)), exp, obs, desc)
     if cases:
@@ -492,7 +572,7 @@ def stream_segs(ctx, n, cases=None):
             ctx.violation("segments:index-build:" + res.split(":")[0].replace(" ", "-"), case, "index builds and reads", res,
                           "building / reading / merging the segments raised")
             continue
-        hascols, multi, merged, ids = res
+        hascols, multi, merged, ids, multi_iter = res
         ctx.stat("segs:without-column=%s" % (not all(hascols)))
         if not m.endswith("(model 1)"):
             ctx.divergence("multiGet/mergeColumnAdds-vs-spec", case, m[:400], "(model 1)")
@@ -502,6 +582,10 @@ def stream_segs(ctx, n, cases=None):
         if list(mm[0]) != multi:
             ctx.violation("MultiReader.column_reader:rows", case, " ".join(mm[0]), " ".join(multi),
                           "rows of the column through a reader over %d segments (has_column %r)" % (len(hascols), hascols))
+            continue
+        if list(mm[2]) != multi_iter and not any(x.startswith("!") for x in multi):
+            ctx.violation("MultiColumnReader.__iter__:differs-from-getitem", case, " ".join(mm[2]), " ".join(multi_iter),
+                          "list(column_reader) over %d segments (has_column %r)" % (len(hascols), hascols))
             continue
         dels = set(c["deletes"])
         live_ids = [u"%d" % g for g in range(sum(len(s) for s in c["segs"])) if g not in dels]
@@ -663,8 +747,60 @@ def stream_large(ctx):
                           "several times")
 
 
+# ------------------------------------------------------------------------------------------------
+# stream 7: field level.  field.to_column_value -> the field's own column -> a TranslatingColumnReader
+# with field.from_column_value, for NUMERIC int (every bits/signed/default), NUMERIC float (on bit
+# patterns), DATETIME and TEXT/ID/KEYWORD (UTF-8), plus utf8encode/utf8decode on their own with a
+# malformed sub-stream.  Model = WM/Model/ColumnsField.lean (file bytes and rows compared);
+# end to end = Layer S rows over the supplied field values.
+
+def stream_fields(ctx, n, cases=None):
+    rng = ctx.rng("fields")
+    if cases is None:
+        cases = [G.gen_field_case(rng, ctx.tier) for _ in range(n)]
+    lines = []
+    for c in cases:
+        lines.append(G.field_model_line(c))
+        lines.append(G.field_spec_line(c) if "adds" in c else "c08 rows - 0 ()")
+    model = ctx.driver.ask(lines)
+    real = ctx.pmap(G.run_field_case, cases, chunksize=16)
+    for k, c in enumerate(cases):
+        m, spec = model[2 * k], model[2 * k + 1]
+        r, problem = real[k]
+        kind = c["kind"]
+        cj = dict(c, _stream="fields", _pickle=_pack(c))
+        if "bytes" in cj:
+            cj["bytes"] = cj["bytes"].hex()
+        if "adds" in cj:
+            cj["adds"] = repr(c["adds"][:40])
+        gaps = "adds" in c and len(c["adds"]) < c["doccount"]
+        ctx.case(("fields", repr(sorted((a, repr(b)) for a, b in c.items() if a != "storage"))),
+                 nontrivial=gaps or (kind.startswith("utf8") and m.startswith("ok") and len(m) > 5))
+        ctx.stat("fields:kind=" + kind)
+        ctx.stat("fields:outcome=" + " ".join(m.split(" ")[:1] + ([m.split(" ")[1]] if m.startswith("err") else [])))
+        if m != r:
+            ctx.divergence("fields." + kind, cj, m[:1200], r[:1200])
+            continue
+        if problem and problem.startswith("sortkey"):
+            ctx.violation("ColumnReader.sort_key:order-differs-from-value-order:" + kind, cj,
+                          "x < y implies sort_key(x) < sort_key(y) (> after set_reverse)", problem,
+                          "sort keys of the field's column do not order documents like the field values")
+        elif problem:
+            ctx.violation("TranslatingColumnReader.__iter__:differs-from-getitem:" + kind, cj, "iteration yields the rows",
+                          problem, "list(reader) / len(reader) disagree with reader[d]")
+        if "adds" in c and r.startswith("ok"):
+            rows = "(" + r.split(" (", 1)[1]
+            got = G.field_rows_as_spec(c, rows)
+            if got != spec:
+                ctx.violation("field-column-roundtrip:%s:row-mismatch" % kind, cj, spec[:400], got[:400],
+                              "column_reader(f)[d] differs from the supplied field value / field default")
+    if cases:
+        ctx.sample({"field_case": {a: repr(b)[:120] for a, b in cases[0].items()}, "model": model[0][:200]})
+
+
 def run(ctx):
     _corpus(ctx)
+    stream_fields(ctx, ctx.budget(1500, 12000))
     stream_columns(ctx, ctx.budget(1500, 12000))
     stream_wrapped(ctx, ctx.budget(600, 4000))
     stream_lists(ctx, ctx.budget(600, 4000))
@@ -684,6 +820,8 @@ def _dispatch(ctx, by):
         stream_api(ctx, 0, by["api"])
     if by.get("segs"):
         stream_segs(ctx, 0, by["segs"])
+    if by.get("fields"):
+        stream_fields(ctx, 0, by["fields"])
 
 
 def _corpus(ctx):
